@@ -57,7 +57,16 @@ ReadNeverMutates ==
 NoTokenNoService == (~req.open /\ tok # "valid") => D = "401"
 Monotone == \A e \in Entries : (~e.deny /\ D = "served" /\ role = "client") => Decision(req, tok, role, acl \cup {e}) = "served"
 
+\* What a served dataset list may show: a response must not go beyond what the caller may ask for directly, so the
+\* list contains exactly the datasets whose own path the caller may GET (deny entries win there too).
+DsPaths == {"/datasets/a", "/datasets/b"}   \* the datasets of the driver's universe
+Listed == IF req.method = "GET" /\ req.path = "/datasets" /\ D = "served"
+            THEN { x.path : x \in { y \in Requests : y.method = "GET" /\ y.path \in DsPaths
+                                                      /\ Decision(y, tok, role, acl) = "served" } }
+            ELSE {}
+ListWithinGrants == \A pth \in Listed : \E y \in Requests : y.path = pth /\ y.method = "GET" /\ Decision(y, tok, role, acl) = "served"
+
 EmitCase == PrintT(<<"ACASE", ToJson([req |-> req.id, tok |-> tok, role |-> role,
-                                        acl |-> { e.id : e \in acl }, d |-> D])>>)
+                                        acl |-> { e.id : e \in acl }, d |-> D, list |-> Listed])>>)
 
 =============================================================================
